@@ -45,7 +45,7 @@ func C02(c *core.Ctx) {
 				for _, is := range checkRoot(w, fm) {
 					if is.Rule == "A-NOEXTRA" || is.Rule == "A-TAG" || is.Rule == "A-MAP" || is.Rule == "A-OVERREJ" {
 						// nested-array limits (C07) surface here as extra branches as well: they are listed under C07
-						if is.Rule == "A-NOEXTRA" && strings.Contains(is.Msg, "Items") {
+						if is.Rule == "A-NOEXTRA" && strings.Contains(is.Msg, "Items") && !strings.Contains(is.Construct, "declared array type") {
 							continue
 						}
 						keep = append(keep, is)
